@@ -66,7 +66,7 @@ class C19(Prop):
     impl_timeout = 3
     rule = ("generated schemas for 0..40 extra columns (generator text and field count); grammar-based schemas "
             "(simple/object/table; sized and variable arrays; enum/set; index/unique/primary/auto), every truncation "
-            "(by token) and single-token mutation of each; every string of length ≤ 4 (quick) / ≤ 5 (thorough) over "
+            "(by token) and single-token mutation of each; supplied schemas of 150 and 260 documented fields (beyond 8 KiB of text); every string of length ≤ 4 (quick) / ≤ 5 (thorough) over "
             "the alphabet ( ) [ ] , ; \" space a é NBSP EM-SPACE (multi-byte white space); schemas whose blanks are partly non-ASCII white space. Non-trivial = the real parser returns at least one declaration "
             "with a field, or an error other than InvalidDeclareType")
     removable = ()
@@ -115,6 +115,15 @@ class C19(Prop):
                 lines.append("AUTOSQL " + text.encode().hex())
             c = CaseT(f"lib{li}", "bed", [], lines, tags={"library_schema"})
             c.expect_fields = expect if li % 9 != 8 else 3    # no schema supplied: the three-field default
+            out.append(c)
+        # schemas longer than any I/O buffer (8 KiB): stored, returned and counted in full
+        for li, nf in enumerate((150, 260) if tier != "thorough" else (150, 200, 260, 600)):
+            text = 'table wide\n"A table with many documented columns"\n(\n' + "".join(
+                f'    {"string" if i % 3 else "uint"} column{i};\t"Documentation of column number {i}, as long as such comments are"\n' for i in range(nf)) + ")\n"
+            lines = ["OPT compress=0 ips=1024 bs=256 zooms=none pass=" + str(1 + li % 2) + " src=iter",
+                     "CHROM chr1 1000", "E chr1 5 9 -", "E chr1 7 20 -", "AUTOSQL " + text.encode().hex()]
+            c = CaseT(f"liblong{li}", "bed", [], lines, tags={"library_schema", "schema_over_8k"})
+            c.expect_fields = nf
             out.append(c)
         maxlen = 5 if tier == "thorough" else 4
         for L in range(0, maxlen + 1):
